@@ -349,7 +349,7 @@ def flows_from_run(r, script, calls, sol):
 
 # --------------------------------------------------------------------------- the check
 def run(ck):
-    proof_ok, failing = ck.proof_stage('MpVerif.C04.Props', 'MpVerif/C04/Props.lean', 'C04_', ['MpVerif/C04/*.lean'], expect_min=8)
+    proof_ok, failing = ck.proof_stage('MpVerif.C04.Props', 'MpVerif/C04/Props.lean', 'C04_', ['MpVerif/C04/*.lean'], expect_min=19)
     ck.log('proof stage: ok=%s failing=%s' % (proof_ok, failing[:8]))
     if ck.tier == 'thorough' and proof_ok:
         bad = ck.leanchecker(['MpVerif.C04.Props'])
@@ -379,6 +379,8 @@ def run(ck):
     model_replay(ck, drv, cases, st)
     for c in cases:
         oracle(ck, c, st)
+        certificates(ck, c, st)
+    sanitizer_stream(ck, cases, st)
     verdicts(ck, cases, st, proof_ok, failing)
 
 
@@ -480,6 +482,12 @@ def gen_answer(c, st):
         s['iiscon'] = rvec_int(rng, rlen(rng, nlin, feat, 'iiscon'), [0, 1, 2, 3, 4, 5])
         if bad:
             feat['iis_bad_status_stream'] = feat.get('iis_bad_status_stream', 0) + 1
+        if c.slack_vars and rng.chance(1, 5):      # directed: a range-slack variable reported with 'mem'/'pmem'/'bug'
+            sl = rng.choice(c.slack_vars)
+            while len(s['iisvar']) <= sl:
+                s['iisvar'].append(0)
+            s['iisvar'][sl] = rng.choice([4, 5, 8])
+            feat['iis_bad_status_on_slack'] = feat.get('iis_bad_status_on_slack', 0) + 1
     c.script = s
     # scripted sequence of presolver calls (all kinds, both directions)
     n_src_v = len(c.model.vars)
@@ -500,6 +508,12 @@ def gen_answer(c, st):
         if d == 'post':
             if rng.chance(4, 5):
                 call['V'] = vec(nv, 'V')
+                if k == 'iis' and c.slack_vars and rng.chance(1, 4):
+                    sl = rng.choice(c.slack_vars)
+                    while len(call['V']) <= sl:
+                        call['V'].append(0)
+                    call['V'][sl] = rng.choice([4, 5, 8])
+                    feat['iis_bad_status_on_slack'] = feat.get('iis_bad_status_on_slack', 0) + 1
             if rng.chance(4, 5):
                 call['C'] = {CG_LIN: vec(nlin, 'C')}
                 if nquad and rng.chance(1, 2):
@@ -556,6 +570,7 @@ def execute_case(ck, exe, c, st):
         if c.slack_oob:
             st.feat['quadrange_slack_reads_out_of_bounds'] = st.feat.get('quadrange_slack_reads_out_of_bounds', 0) + 1
             c.options = [o for o in c.options if not o.startswith('alg:start')] + ['alg:start=0']
+        c.slack_vars = [e['d'][1][1] for e in lg0['entries'] if e['t'].startswith('Range2Slk')]
         gen_answer(c, st)
         if c.slack_oob:
             c.calls = [cl for cl in c.calls if not (cl['dir'] == 'pre' and cl['kind'] == 'sol')]
@@ -902,6 +917,9 @@ def oracle(ck, c, st):
                     % (e['s'][0][1], e['s'][0][1], dict((nm, sz) for nm, sz in c.lg['nodes']).get('_linrange', 0)), None, e)
             elif rc['used'] != rc['own']:
                 chk('quadrange_slack_uses_other_constraint')
+                bad('pre:sol:quadrange-slack-uses-other-constraint',
+                    'RangeCon2Slack for quadratic range constraint %d: the warm-start value of its slack is computed from LINEAR range constraint %d (GetConstraint<LinConRange>), not from the constraint itself'
+                    % (e['s'][0][1], e['s'][0][1]), None, {'own': rc['own'], 'used': rc['used']})
     for f in c.flows:
         if f.dir == 'post':
             V = f.inputs.get('dest_vars()')
@@ -957,8 +975,17 @@ def oracle(ck, c, st):
                     bad('pre:%s:slack-value' % f.kind, 'slack variable %d received %s, expected %s' % (sl, rv[sl] if sl < len(rv) else None, want), f)
                 else:
                     chk('pre_slack_ok')
+    # driver level: an infeasible result with IIS vectors must produce the IIS suffixes
+    s = c.script
+    if c.code == 200 and (s.get('iisvar') is not None or s.get('iiscon') is not None) and not any(f.name == 'iis_out' for f in c.flows):
+        V = s.get('iisvar') or []
+        slacks = [e['d'][1][1] for e in c.lg['entries'] if e['t'].startswith('Range2Slk')]
+        if any(int(getz(V, sl)) not in (0, 1, 2, 3) for sl in slacks):
+            bad('post:iis:unknown-slack-status-raises', 'driver run: no IIS suffix is returned for any item because a range-slack variable has IIS status outside {non, low, fix, upp} (PostsolveIIS raises; reported as warning "Error reporting a suffix")', None)
+        else:
+            bad('post:iis:not-reported', 'infeasible result with IIS vectors but PostsolveIIS was not performed', None)
     # the .sol file
-    sol, s = c.sol, c.script
+    sol = c.sol
     x = s.get('x')
     if sol is None:
         return
@@ -1002,6 +1029,140 @@ def oracle(ck, c, st):
                     bad('sol:suffix:%s' % nm, '.sol suffix %s (kind %d) = %s, postsolved values %s' % (nm, kind_, got, want), f)
                 else:
                     chk('sol_suffix_%s_ok' % nm)
+
+
+
+def certificates(ck, c, st):
+    """the Lean certificate (symbolic origin of every original item on the REAL graph) must be the one the property
+    demands; items are matched to delivered rows by the oracle (independently of the graph)."""
+    if c.problem or getattr(c, 'graph_error', None) or c.bad_ops or not hasattr(c, 'matches'):
+        return
+    n = len(c.model.vars)
+    ids = c.ids
+    sv, dv, sc, dc = ids.get('src_vars()'), ids.get('dest_vars()'), ids.get('src_cons()'), ids.get('dest_cons(3)')
+    loaded_post = set([dv, ids.get('dest_objs()')] + [i for nm, i in ids.items() if nm.startswith('dest_cons(')])
+
+    def want_post(k, mt, i):
+        if mt[0] == 'plain':
+            return 'init:%d:%d' % (dc, mt[1])
+        if mt[0] == 'slack':
+            row, slk = 'init:%d:%d' % (dc, mt[1]), 'init:%d:%d' % (dv, mt[2])
+            return {'sol': row, 'basis': 'rev(%s)' % slk, 'iis': 'iis(%s,%s)' % (slk, row), 'generic': 'smax(%s,%s)' % (row, slk), 'lazy': 'const:0/1'}[k]
+        return None
+
+    def fail(sig, what):
+        o = replay_obj(c)
+        ck.add_violation(sig, what, o, found_input=getattr(c, 'oracle_failed', False))
+
+    for (d, k, item, i), got in c.traces.items():
+        key = 'cert_%s_%s' % (d, item)
+        if d == 'post' and item == 'var':
+            want = 'init:%d:%d' % (dv, i)
+        elif d == 'post' and item == 'con':
+            if i >= len(c.matches):
+                continue
+            mt = c.matches[i]
+            if mt[0] == 'gone':
+                ok = got.startswith('init:') and int(got.split(':')[1]) not in loaded_post
+                st.oracle[key + '_gone'] = st.oracle.get(key + '_gone', 0) + 1
+                if not ok:
+                    fail('cert:post:%s:gone' % k, 'eliminated constraint %d: certificate %s is not an unloaded (zero) cell' % (i, got))
+                continue
+            want = want_post(k, mt, i)
+            if want is None:
+                continue
+            key += '_' + mt[0]
+        elif d == 'pre' and item == 'dvar':
+            if i < n:
+                want = 'init:%d:%d' % (sv, i)
+            else:
+                sl = [(ci, mt) for ci, mt in enumerate(c.matches) if mt[0] == 'slack' and mt[2] == i]
+                if not sl:
+                    continue
+                src = 'init:%d:%d' % (sc, sl[0][0])
+                want = {'generic': src, 'basis': 'rev(%s)' % src, 'lazy': 'const:0/1', 'sol': 'none'}[k]
+                key += '_slack'
+        elif d == 'pre' and item == 'drow':
+            m_ = [(ci, mt) for ci, mt in enumerate(c.matches) if mt[0] in ('plain', 'slack') and mt[1] == i]
+            if not m_:
+                continue
+            ci, mt = m_[0]
+            src = 'init:%d:%d' % (sc, ci)
+            want = src if (mt[0] == 'plain' or k != 'basis') else 'const:5/1'
+            key += '_' + mt[0]
+        else:
+            continue
+        if got != want:
+            fail('cert:%s:%s:%s' % (d, k, item), 'certificate of %s %d for %s/%s on the real graph is %s, the property demands %s' % (item, i, d, k, got, want))
+        else:
+            st.oracle[key] = st.oracle.get(key, 0) + 1
+
+
+
+ASAN_FLAGS = ('-O1', '-g', '-fsanitize=address,undefined', '-fno-sanitize-recover=all')
+
+
+def classify_sanitizer(err):
+    """signature of a sanitizer report: kind + first mp:: frame"""
+    import re
+    kind = 'abort'
+    m = re.search(r'ERROR: AddressSanitizer: ([\w-]+)', err)
+    if m:
+        kind = m.group(1)
+    elif 'runtime error:' in err:
+        kind = 'ubsan'
+    frames = re.findall(r'#\d+ 0x[0-9a-f]+ in (.+?) (?:/|\()', err)
+    if any('RangeCon2Slack' in f and 'PresolveSolutionEntry' in f for f in frames[:12]) or \
+            (any('ComputeLowerSlack' in f or 'ComputeValue' in f for f in frames[:6]) and any('RangeCon2Slack' in f for f in frames[:14])):
+        return 'pre:sol:quadrange-slack-reads-out-of-bounds', frames[:8]
+    fn = next((f for f in frames if 'mp::' in f), frames[0] if frames else '?')
+    fn = re.sub(r'<.*', '', fn).split('(')[0]
+    return 'sanitizer:%s:%s' % (kind, fn[-60:]), frames[:8]
+
+
+def sanitizer_stream(ck, cases, st):
+    """re-run generated cases (short / empty / long vectors first) and a directed model on an ASan+UBSan build of the
+    same driver: every transfer must stay inside its buffers"""
+    exe = recsolver.build(ck, flags=ASAN_FLAGS, name='recsolver_asan')
+    todo = [c for c in cases if not c.problem]
+    todo.sort(key=lambda c: -sum(1 for k in ('x', 'pi', 'varstt', 'constt', 'iisvar', 'iiscon')
+                                 if c.script.get(k) is not None and len(c.script[k]) < (c.sizes[0] if k in ('x', 'varstt', 'iisvar') else c.sizes[1].get(CG_LIN, 0))))
+    todo = todo[:(20 if ck.tier == 'quick' else 150)]
+    nrun = 0
+    for c in todo:
+        r = recsolver.run(exe, c.stub, options=c.options, accept=c.accept, script=c.stub + '.script', env=env_of(c, c.stub + '.calls'), timeout=300)
+        nrun += 1
+        if r['rc'] != 0 and ('Sanitizer' in r['err'] or 'runtime error' in r['err']):
+            sig, frames = classify_sanitizer(r['err'])
+            o = replay_obj(c)
+            o.update({'frames': frames, 'stderr_tail': r['err'][-1500:], 'build': 'recsolver with ' + ' '.join(ASAN_FLAGS)})
+            ck.add_violation(sig, 'sanitizer report while transferring values: %s' % frames[:3], o, found_input=True)
+    # directed: ONE quadratic range constraint, no linear range constraint, a warm start
+    d = os.path.join(BUILD, 'c04', 'directed_quadrange')
+    os.makedirs(d, exist_ok=True)
+    m = nlgen.Model()
+    x = m.var(0, 4)
+    y = m.var(0, 4)
+    m.obj('min', {x: 1, y: 1})
+    m.con(1, 9, {x: 1}, nl=('*', ('v', x), ('v', y)))
+    m.con(None, 6, {x: 1, y: 2})
+    m.x0 = {x: 1, y: 2}
+    m.pi0 = {0: 1, 1: 1}
+    stub = os.path.join(d, 'm')
+    m.write(stub)
+    c = Case()
+    c.stub, c.model, c.accept, c.options, c.ismip, c.calls, c.script = stub, m, ['LinConLE', 'LinConEQ', 'LinConGE', 'QuadConLE', 'QuadConEQ', 'QuadConGE'], ['alg:start=1'], 0, [], {'code': 0}
+    r = recsolver.run(exe, stub, options=c.options, accept=c.accept, env=env_of(c), timeout=300)
+    nrun += 1
+    st.feat['sanitizer_runs'] = nrun
+    if r['rc'] != 0 and ('Sanitizer' in r['err'] or 'runtime error' in r['err']):
+        sig, frames = classify_sanitizer(r['err'])
+        o = replay_obj(c)
+        o.update({'frames': frames, 'stderr_tail': r['err'][-1500:], 'build': 'recsolver with ' + ' '.join(ASAN_FLAGS)})
+        ck.add_violation(sig, 'directed model (one quadratic range constraint x*y + x in [1,9], no linear range constraint, warm start): sanitizer report %s' % frames[:3], o, found_input=True)
+        st.feat['directed_quadrange_sanitizer_report'] = 1
+    else:
+        st.feat['directed_quadrange_sanitizer_report'] = 0
 
 
 def case_from_replay(obj, d):
@@ -1161,6 +1322,7 @@ def replay(ck, path):
         print('run problem:', c.problem)
     model_replay(ck, drv, [c], st)
     oracle(ck, c, st)
+    certificates(ck, c, st)
     for f in c.flows + ([c.final_flow] if not c.problem else []):
         print('--', f.name, f.dir, f.kind, 'RAISED' if f.raised else '')
         print('   inputs :', {k: [str(t) for t in v] for k, v in f.inputs.items()})
